@@ -27,7 +27,7 @@ type c03Hist struct {
 
 func init() {
 	register(&Prop{ID: "C03", Run: c03Run,
-		Rule: "histories of AddValue / AddValueAt / AddContainer / AddList / Remove / RemoveAt / ListBuilder.Set / Append / Clear / MustSet(in range) / Walk(CompactFn) over path-safe keys with index groups (nested up to 2), aimed at existing positions 2/3 of the time, from empty / generated start documents; every step is filtered by the domain predicate (no index step lands on an existing non-list, non-null node; remove paths end in a key). Non-trivial: at least 3 steps changed the document; distinct by case hash. heap-hist cases (harness/heap_builder.go): the start document is built by one of seven routes (FromMap, AddValue/ListNode with own / shared / mixed nil leaves, the AddContainer/AddList/Set/Append API, shared subtrees, containers with an add-and-remove history), its real object graph is encoded as an explicit heap by pointer identity, and a history of 3-14 (thorough: up to 30) builder calls is run that KEEPS the nodes returned by AddContainer / AddList / Child / Lookup as handles and later writes through them (half of the calls), mixed with root-level path writes aimed at the handles' positions (overwrite / remove / re-create), list Set / MustSet / Append / Clear, Walk(CompactFn), and now and then attaches a node the history already holds (sharing; never closing a cycle); after every call the document, the sharing map of its graph, the liveness of every handle, the returned node and the set of existing objects whose content changed are compared with the heap model (lean/YtkModel/HeapBuilder.lean). Such a case is non-trivial when at least one write went through a kept handle and at least 2 calls changed the document.",
+		Rule: "histories of AddValue / AddValueAt / AddContainer / AddList / Remove / RemoveAt / ListBuilder.Set / Append / Clear / MustSet(in range) / Walk(CompactFn) over path-safe keys with index groups (nested up to 2), aimed at existing positions 2/3 of the time, from empty / generated start documents; every step is filtered by the domain predicate (no index step lands on an existing non-list, non-null node; remove paths end in a key). One history in four draws its keys from a second path-safe pool (vr_util.go: case twins, letters outside ASCII in 2/3/4 UTF-8 bytes, digit-only and sign-prefixed names, prefix-related siblings, names with inner / leading / trailing blanks and with characters that are syntax elsewhere: '/', '~', '#', '{', '=', ':'), every third history draws one index in six from 9..12 (two-digit index groups, lists padded to that length), one in four starts from a document rich in empty-but-present values (empty containers, empty lists, [[]], [{}], lists of nulls, the empty string, below containers at every depth) and compacts three times as often; after every Walk(CompactFn) the document is compared with the compaction of the previous state computed on the plain tree (exactly the empty keyed containers go, cascading upwards; lists, their items and every leaf stay). Non-trivial: at least 3 steps changed the document; distinct by case hash. heap-hist cases (harness/heap_builder.go): the start document is built by one of seven routes (FromMap, AddValue/ListNode with own / shared / mixed nil leaves, the AddContainer/AddList/Set/Append API, shared subtrees, containers with an add-and-remove history), its real object graph is encoded as an explicit heap by pointer identity, and a history of 3-14 (thorough: up to 30) builder calls is run that KEEPS the nodes returned by AddContainer / AddList / Child / Lookup as handles and later writes through them (half of the calls), mixed with root-level path writes aimed at the handles' positions (overwrite / remove / re-create), list Set / MustSet / Append / Clear, Walk(CompactFn), and now and then attaches a node the history already holds (sharing; never closing a cycle); after every call the document, the sharing map of its graph, the liveness of every handle, the returned node and the set of existing objects whose content changed are compared with the heap model (lean/YtkModel/HeapBuilder.lean). Such a case is non-trivial when at least one write went through a kept handle and at least 2 calls changed the document.",
 		Assumptions: []string{"remove operations range over paths whose last step is a key (DESIGN.md section 2)",
 			"a null pad at a list slot counts as absent for a following index step (it is replaced by a list)",
 			"heap-hist tie: a node object is identified by the address its pointer holds, a children map by the address of its header (Children() returns the map itself); item slices are observed through Items(); allocation order is not observable, so new objects are numbered by first visit (preorder, key order; the root's graph, then every detached handle's graph) on both sides; value nodes of heap-hist cases are built with a new leaf object per null, the start document by one of the seven routes of heap_share.go"}})
@@ -37,13 +37,34 @@ func init() {
 
 var c03Keys = []string{"a", "b", "c", "k1", "x-y"}
 
+// c03WideKeys: a second pool of path-safe names (free of '.', '[' and ']', non-empty): what the first pool never
+// has — names that differ by case only, letters outside ASCII, names that are numbers, names one of which is a
+// prefix of the other, blanks inside and around a name, characters that are syntax of other notations.
+var c03WideKeys = append(append([]string{}, vrLetterKeys[:24]...),
+	"0", "00", "7", "-1", "1e3", "a b", " a", "a ", "a\ta", "\u00a0a", "a/b", "/", "~", "~0", "#", "{", "}", "a=b", ":", "a: b", "*", "&a", "!", "\\", "'", "\"", "%", "$", ",", "?", "true", "null", "🚀")
+
+// c03KeyPool: the pool a history draws its member names from (set by the generator for the history it is
+// generating; c03Component / c03Path are shared with heap_builder.go, which always uses c03Keys).
+var c03KeyPool = c03Keys
+
+// c03BigIdx: one index draw in six is 9, 10, 11 or 12 (the step from one-digit to two-digit index groups, lists padded
+// to that length); set by the generator for every third history.
+var c03BigIdx = false
+
+func c03Idx(r *rand.Rand, n int) int {
+	if c03BigIdx && r.Intn(6) == 0 {
+		return 9 + r.Intn(4)
+	}
+	return r.Intn(n)
+}
+
 func c03Component(r *rand.Rand) string {
-	k := pick(r, c03Keys)
+	k := pick(r, c03KeyPool)
 	switch r.Intn(6) {
 	case 0:
-		return fmt.Sprintf("%s[%d]", k, r.Intn(4))
+		return fmt.Sprintf("%s[%d]", k, c03Idx(r, 4))
 	case 1:
-		return fmt.Sprintf("%s[%d][%d]", k, r.Intn(3), r.Intn(3))
+		return fmt.Sprintf("%s[%d][%d]", k, c03Idx(r, 3), c03Idx(r, 3))
 	}
 	return k
 }
@@ -126,6 +147,9 @@ func c03InDomain(w W, p string) bool {
 	return true
 }
 
+// c03CompactWeight: how many of 20 (+ weight - 2) draws are Walk(CompactFn) (2 by default).
+var c03CompactWeight = 2
+
 func c03GenOps(r *rand.Rand, g *DocGen, start W, n int, probe func(W, bOp) W) []bOp {
 	state := start
 	var ops []bOp
@@ -133,7 +157,7 @@ func c03GenOps(r *rand.Rand, g *DocGen, start W, n int, probe func(W, bOp) W) []
 		var paths, lists []string
 		wirePaths(state, "", &paths, &lists)
 		var op bOp
-		switch k := r.Intn(20); {
+		switch k := r.Intn(18 + c03CompactWeight); {
 		case k < 6:
 			op = bOp{Op: "addvalueat", Path: c03Path(r, paths), V: g.Node(r, g.MaxDepth-2)}
 		case k < 8:
@@ -143,7 +167,7 @@ func c03GenOps(r *rand.Rand, g *DocGen, start W, n int, probe func(W, bOp) W) []
 		case k == 9:
 			op = bOp{Op: "addlist", Path: c03Component(r)}
 		case k == 10:
-			op = bOp{Op: "remove", Path: pick(r, c03Keys)}
+			op = bOp{Op: "remove", Path: pick(r, c03KeyPool)}
 		case k < 13:
 			p := c03Path(r, paths)
 			if trailingIdx.MatchString(p) {
@@ -157,13 +181,13 @@ func c03GenOps(r *rand.Rand, g *DocGen, start W, n int, probe func(W, bOp) W) []
 			lp := pick(r, lists)
 			switch r.Intn(4) {
 			case 0:
-				op = bOp{Op: "listset", Path: lp, Idx: r.Intn(5), V: g.Node(r, g.MaxDepth-1)}
+				op = bOp{Op: "listset", Path: lp, Idx: c03Idx(r, 5), V: g.Node(r, g.MaxDepth-1)}
 			case 1:
 				op = bOp{Op: "listappend", Path: lp, V: g.Node(r, g.MaxDepth-1)}
 			case 2:
 				op = bOp{Op: "listclear", Path: lp}
 			default:
-				op = bOp{Op: "listmustset", Path: lp, Idx: r.Intn(5), V: g.Scalar(r)}
+				op = bOp{Op: "listmustset", Path: lp, Idx: c03Idx(r, 5), V: g.Scalar(r)}
 			}
 		default:
 			op = bOp{Op: "compact"}
@@ -218,6 +242,7 @@ func wireLookup(w W, p string) W {
 }
 
 func c03Run(c *Ctx) {
+	c03KeyPool, c03CompactWeight, c03BigIdx = c03Keys, 2, false
 	if os.Getenv("VERIF_C03_ONLY") == "heap-hist" { // detection experiments: the pointer-level histories alone
 		heapHistGen(c, c.N(250))
 		return
@@ -232,11 +257,31 @@ func c03Run(c *Ctx) {
 	}
 	// the generator needs the state after each step to stay inside the domain: it applies the
 	// step to the real implementation (a scratch builder) and reads the state back
+	ge := *g // empty-but-present values below containers at every depth
+	ge.PEmpty, ge.PLeaf, ge.PNull, ge.MaxDepth, ge.Strings = 0.45, 0.3, 0.3, 4, []string{"", "", " ", "s"}
 	for i := 0; i < c.N(400); i++ {
 		c.Tick()
+		c03KeyPool, c03CompactWeight, g.Keys = c03Keys, 2, c03Keys
+		c03BigIdx = i%3 == 0
+		if i%4 == 1 {
+			// a handful of names of the wide pool per history, so that they meet each other
+			c03KeyPool = []string{pick(r, c03WideKeys), pick(r, c03WideKeys), pick(r, c03WideKeys), pick(r, c03WideKeys), pick(r, c03Keys)}
+			if r.Intn(2) == 0 {
+				tw := [][]string{{"maxConn", "maxconn", "MAXCONN", "max", "maxC"}, {"\u00e9", "È", "größe", "GRÖSSE", "ß"}, {"0", "00", "7", "-1", "a"}, {"a", "a ", " a", "a b", "A"}, {"名前", "名", "𝛼", "𝛼𝛽", "ω"}}
+				c03KeyPool = pick(r, tw)
+			}
+			g.Keys = c03KeyPool
+			c.Dist("history:wide-key-pool")
+		}
+		ge.Keys = g.Keys
 		var start W = map[string]any{"m": map[string]any{}}
 		if r.Intn(3) > 0 {
 			start = g.Doc(r)
+		}
+		if i%4 == 2 {
+			start = ge.Doc(r)
+			c03CompactWeight = 6
+			c.Dist("history:empty-rich-start")
 		}
 		scratch := wireContainer(start)
 		probe := func(_ W, op bOp) W {
@@ -246,6 +291,7 @@ func c03Run(c *Ctx) {
 		n := 3 + r.Intn(maxLen)
 		c.Do("history", c03Hist{Start: start, Ops: c03GenOps(r, g, start, n, probe)})
 	}
+	c03KeyPool, c03CompactWeight, c03BigIdx = c03Keys, 2, false
 	heapHistGen(c, c.N(250)) // heap_builder.go: histories that keep handles, compared at pointer level
 }
 
@@ -426,6 +472,18 @@ func c03Eval(c *Ctx, kind string, raw []byte) {
 			}
 			c.Direct("frame(remove): nothing appears", len(newFlat) <= len(oldFlat), det)
 		case "compact":
+			want := c03RefCompact(prev)
+			c.Direct("compact==compaction of the plain tree (exactly the empty keyed containers go, cascading; lists and leaves stay)", canon(cur) == canon(want),
+				map[string]any{"step": i, "before": prev, "after": cur, "expected": want})
+			// nothing that was not removed became unreachable: every member of the compacted plain tree is still found by Lookup
+			var keep, keepLists []string
+			wirePaths(want, "", &keep, &keepLists)
+			for _, q := range keep {
+				if !c.Direct("compact: lookup still finds what was not removed", canon(nodeWire(cb.Lookup(q))) == canon(wireLookup(want, q)),
+					map[string]any{"step": i, "path": q, "before": prev, "after": cur}) {
+					break
+				}
+			}
 			c.Direct("compact-keeps-leaves", canon(newFlat) == canon(oldFlat), det)
 			c.Direct("compact-removes-empty-keyed-containers", !hasEmptyKeyedContainer(cur), det)
 		case "listset", "listappend", "listclear", "listmustset":
@@ -496,4 +554,28 @@ func hasEmptyKeyedContainer(w W) bool {
 		}
 	}
 	return false
+}
+
+// c03RefCompact: Walk(CompactFn) on the plain tree ("compact document tree by removing empty containers"): a member
+// that is a container is compacted first and removed when nothing is left in it; lists are not walked into (the
+// walker visits the members of containers), so a list and all its items stay, and so does every leaf.  The root
+// itself stays even when it ends up empty.
+func c03RefCompact(w W) W {
+	c, ok := wireCont(w)
+	if !ok {
+		return w
+	}
+	m := map[string]any{}
+	for k, e := range c {
+		if _, isCont := wireCont(e); isCont {
+			ce := c03RefCompact(e)
+			if cm, _ := wireCont(ce); len(cm) == 0 {
+				continue
+			}
+			m[k] = ce
+			continue
+		}
+		m[k] = e
+	}
+	return map[string]any{"m": m}
 }
